@@ -512,9 +512,7 @@ func vfGenC10(t *rapid.T) vfC10Case {
 	}
 	c := vfC10Case{Sock: sc}
 	if rapid.IntRange(0, 2).Draw(t, "testrec") == 0 {
-		// not on a frame where motion could start a recording in the same millisecond: during still frames at the start
-		c.TestAt = []int{0}
-		c.Sock.Items = append([]vfItem{{K: vfItFrame}, {K: vfItFrame}}, c.Sock.Items...)
+		c.TestAt = []int{rapid.IntRange(0, len(c.Sock.Items)/2).Draw(t, "testat")}
 	}
 	return c
 }
